@@ -126,7 +126,7 @@ impl Stats {
         }
     }
     pub fn state(&mut self, h: u64) {
-        if self.states.len() < 2_000_000 {
+        if self.states.len() < 200_000 {
             self.states.insert(h);
         }
     }
